@@ -6,7 +6,11 @@ Bounded-exhaustive enumeration on the real ``EventSeries`` code:
            dyadic non-uniform increasing set}: ES and ECA (static methods and
            the three ECA window types of the instance path) against the
            Fraction transcription of the counting rules, range [0,1], exchange
-           of the two series, common time shift, time scaling (taumax = inf)
+           of the two series, common time shift, time scaling by 4 and 1/4
+           (ES, taumax = inf); pairs of length <= 5, matrices whose columns
+           all have >= 3 events and the scale series also by the exact dyadic
+           factors 2^-40, 2^-30, 2^-20, 2^20, 2^30 (ES with taumax = inf; ECA
+           with window and lag rescaled alike)
   matrix   every 3-column event matrix of length 5  x  taumax  x  lag  x
            timestamps, and every 2-column matrix of length 7 (taumax 1, 2):
            event_series_analysis under every symmetrisation option against
@@ -38,9 +42,13 @@ TAUMAX = [1, 2, None]          # None = unbounded
 LAGS = [0, 1]
 SHIFT = 2.5
 SCALES = [4.0, 0.25]
+# exact dyadic factors: very fine and very coarse time axes (k * 2**-40 is
+# exact in double precision)
+FINE_SCALES = [2.0 ** -40, 2.0 ** -30, 2.0 ** -20, 2.0 ** 20, 2.0 ** 30]
 WINDOWS = ["advanced", "retarded", "symmetric"]
 SYM_ES = ["directed", "symmetric", "antisym", "mean", "max", "min"]
 SYM_ECA = ["directed", "mean", "max", "min"]
+FINE_TMAX = 5      # pairs up to this length get the fine/coarse rescalings
 
 
 def worker_init():
@@ -81,7 +89,7 @@ def _close(a, b, tol):
 
 
 def _pair_config(ES, x, y, xa, ya, ts, tsa, kind, taumax, lag, viol, ex,
-                 stats, sig):
+                 stats, sig, fine=False):
     """One configuration of one pair of series: ES and ECA (static and
     instance path) against the counting rules plus the relations.
     Returns the number of library evaluations."""
@@ -154,19 +162,26 @@ def _pair_config(ES, x, y, xa, ya, ts, tsa, kind, taumax, lag, viol, ex,
                     "explicit timestamps 0..T-1 differ from the "
                     "default", e2, got))
         if taumax is None:
-            for a in SCALES:
+            for a in SCALES + (FINE_SCALES if fine else []):
                 st5, sc = _call(
                     ES.event_synchronization, xa, ya,
                     ts1=tsa * a, ts2=tsa * a, taumax=np.inf,
                     lag=float(lag) * a)
                 ev += 1
+                stats["rescalings_judged"] = stats.get(
+                    "rescalings_judged", 0) + 1
                 if st5 == "exc" or not _close(
                         (float(sc[0]), float(sc[1])), got, F64):
                     viol.append(V(
                         "EventSeries.event_synchronization:"
                         "scale:" + c,
                         "taumax=inf: changes when time is "
-                        "rescaled by %s" % a, sc, got))
+                        "rescaled by %r" % a, sc, got))
+                elif not all(-1e-12 <= float(g) <= 1 + 1e-12 for g in sc):
+                    viol.append(V(
+                        "EventSeries.event_synchronization:range:" + c,
+                        "time rescaled by %r: outside [0,1]" % a, sc,
+                        "in [0,1]"))
     # ---------------- event coincidence analysis -------------
     if taumax is None:
         ex("ECA with unbounded window (library demands a finite "
@@ -241,6 +256,32 @@ def _pair_config(ES, x, y, xa, ya, ts, tsa, kind, taumax, lag, viol, ex,
                     "EventSeries.event_coincidence_analysis:"
                     "shift:" + c, names[k], sh, got))
                 break
+    # time rescaling: window and lag scale with the time axis
+    for a in (FINE_SCALES if fine else []):
+        st8, sc = _call(ES.event_coincidence_analysis, xa, ya, taumax * a,
+                        ts1=tsa * a, ts2=tsa * a, lag=lag * a)
+        ev += 1
+        stats["rescalings_judged"] = stats.get("rescalings_judged", 0) + 1
+        if st8 == "exc":
+            viol.append(V("EventSeries.event_coincidence_analysis:"
+                          "scale:" + c, sc, sc, got))
+            continue
+        sc = [float(g) for g in sc]
+        for k in range(4):
+            if want[k] is None:
+                continue
+            if not _close(sc[k], got[k], F32):
+                viol.append(V(
+                    "EventSeries.event_coincidence_analysis:scale:" + c,
+                    "%s changes when time, window and lag are rescaled by "
+                    "%r" % (names[k], a), sc, got))
+                break
+            if not -1e-6 <= sc[k] <= 1 + 1e-6:
+                viol.append(V(
+                    "EventSeries.event_coincidence_analysis:range:" + c,
+                    "%s, time rescaled by %r" % (names[k], a), sc[k],
+                    "in [0,1]"))
+                break
     # instance path, the three window types (2-column matrix)
     mat = np.column_stack([xa, ya])
     st6, obj = _call(ES, mat, timestamps=(
@@ -299,14 +340,16 @@ def fam_pairs(case):
         for taumax in TAUMAX:
             for lag in LAGS:
                 ev += _pair_config(ES, x, y, xa, ya, ts, tsa, kind, taumax,
-                                   lag, viol, ex, stats, sig)
+                                   lag, viol, ex, stats, sig,
+                                   fine=(T <= FINE_TMAX))
     nx, ny = sum(x), sum(y)
     return {"viol": viol, "evals": ev, "excluded": excl, "stats": stats,
             "trivial": nx == 0 or ny == 0,
             "sig": str(sig)}
 
 
-def _matrix_config(ES, mat, cols, ts, kind, taumax, lag, viol, ex, nj, sig):
+def _matrix_config(ES, mat, cols, ts, kind, taumax, lag, viol, ex, nj, sig,
+                   fine=False):
     """One configuration of one event matrix: event_series_analysis under
     every symmetrisation against the pairwise values."""
     N = mat.shape[1]
@@ -342,6 +385,32 @@ def _matrix_config(ES, mat, cols, ts, kind, taumax, lag, viol, ex, nj, sig):
                 G, want))
     sig.append(str(D))
     nj[1] += sum(1 for r in D for v in r if v == v and v != 0)
+    # time rescaling (window and lag scale with the time axis)
+    scaled = []
+    for a in (FINE_SCALES if fine else []):
+        st, o2 = _call(ES, mat.copy(), timestamps=tsa * a,
+                       taumax=_tm(taumax) * a, lag=lag * a)
+        if st == "ok":
+            scaled.append((a, o2))
+    if taumax is None:
+        for a, o2 in scaled:
+            st, G = _call(o2.event_series_analysis, method="ES",
+                          symmetrization="directed")
+            ev += 1
+            Dn = np.array(D)
+            if st == "exc" or not _close(np.asarray(G, dtype=float), Dn, F64):
+                viol.append(V(
+                    "EventSeries.event_series_analysis:scale:ES",
+                    "ts=%s taumax=inf lag=%s: changes when time is rescaled "
+                    "by %r" % (kind, lag, a), G, D))
+                break
+            Gf = np.asarray(G, dtype=float)
+            Gf = Gf[np.isfinite(Gf)]
+            if Gf.size and (Gf.min() < -1e-12 or Gf.max() > 1 + 1e-12):
+                viol.append(V(
+                    "EventSeries.event_series_analysis:range:ES",
+                    "time rescaled by %r" % a, G, "in [0,1]"))
+                break
     if taumax is None:
         st, G = _call(obj.event_series_analysis, method="ECA")
         ex("ECA with unbounded window (library demands a finite "
@@ -356,6 +425,30 @@ def _matrix_config(ES, mat, cols, ts, kind, taumax, lag, viol, ex, nj, sig):
             for j in range(i + 1, N):
                 r = ref.eca_window(cols[i], cols[j], ts, taumax, lag, w)
                 E[i][j], E[j][i] = r
+        for a, o2 in scaled:
+            st, G = _call(o2.event_series_analysis, method="ECA",
+                          symmetrization="directed", window_type=w)
+            ev += 1
+            if st == "exc":
+                viol.append(V("EventSeries.event_series_analysis:scale:ECA-"
+                              + w, G, G, None))
+                break
+            bad = None
+            for i in range(N):
+                for j in range(N):
+                    if i != j and E[i][j] is not None:
+                        g = float(G[i][j])
+                        if not _close(g, float(E[i][j]), F32) or \
+                                not -1e-6 <= g <= 1 + 1e-6:
+                            bad = bad or (i, j, g, float(E[i][j]))
+            if bad:
+                viol.append(V(
+                    "EventSeries.event_series_analysis:scale:ECA-" + w,
+                    "ts=%s taumax=%s lag=%s: entry (%d,%d) changes when "
+                    "time, window and lag are rescaled by %r" % (
+                        kind, taumax, lag, bad[0], bad[1], a),
+                    bad[2], bad[3]))
+                break
         for sym in SYM_ECA:
             st, G = _call(obj.event_series_analysis, method="ECA",
                           symmetrization=sym, window_type=w)
@@ -401,6 +494,9 @@ def fam_matrix(case):
     mat = np.array([[bits >> (t * N + i) & 1 for i in range(N)]
                     for t in range(T)])
     cols = [list(mat[:, i]) for i in range(N)]
+    # rescaling relation on the matrices whose columns all have interior
+    # events (>= 3 events each): 16^3 of the 5x3, 99^2 of the 7x2 matrices
+    fine = all(sum(c) >= 3 for c in cols)
     viol, excl, sig = [], {}, []
     nj = [0, 0]
     ev = 0
@@ -410,7 +506,7 @@ def fam_matrix(case):
 
     for (kind, taumax, lag) in configs:
         ev += _matrix_config(ES, mat, cols, _ts(kind, T), kind, taumax, lag,
-                             viol, ex, nj, sig)
+                             viol, ex, nj, sig, fine=fine)
     nev = [sum(c) for c in cols]
     return {"viol": viol, "evals": ev, "excluded": excl,
             "stats": {"matrix_eca_entries_judged": nj[0],
@@ -560,12 +656,12 @@ def fam_scale(case):
     for (taumax, lag) in configs:
         if part == "matrix":
             ev += _matrix_config(ES, mat, cols, ts, kind, taumax, lag, viol,
-                                 ex, nj, sig)
+                                 ex, nj, sig, fine=True)
         else:
             i, j = part
             ev += _pair_config(ES, cols[i], cols[j], mat[:, i].copy(),
                                mat[:, j].copy(), ts, tsa, kind, taumax, lag,
-                               viol, ex, stats, sig)
+                               viol, ex, stats, sig, fine=True)
     stats["matrix_eca_entries_judged"] = nj[0]
     stats["matrix_es_nonzero_pairwise_entries"] = nj[1]
     seen, uniq = set(), []
